@@ -1894,6 +1894,16 @@ impl Machine {
     }
 
     pub fn execute_main(&mut self) -> ReturnCode {
+        // A stateful function called at global scope uses the global state storage, which is
+        // otherwise sized only by the first dsp call.
+        let main_state_size = self
+            .prog
+            .global_fn_table
+            .first()
+            .map_or(0, |(_, f)| f.state_skeleton.total_size() as usize);
+        if self.global_states.rawdata.len() < main_state_size {
+            self.global_states.resize(main_state_size);
+        }
         // 0 is always base pointer to the main function
         self.base_pointer += 1;
         self.execute(0, None)
